@@ -253,6 +253,9 @@ DepositCount == Len(LeavesOf(blk))
 
 (* event shapes; leaf atoms are assigned fresh, in order *)
 Shapes == IF Kind = "ger" THEN {<<"ger">>} \cup {<<"gerrm", x>> : x \in 1..MaxLeaves}
+                                \* a GER that is already stored is reported again by a later block (the FEP downloader reports the
+                                \* greatest injected GER with every L2 block; PP: injected again): one more row, same GER
+                                \cup {<<"gerD", x>> : x \in 1..MaxLeaves}
           ELSE IF Kind = "bridge"
           THEN {<<"leaf">>, <<"leafR">>, <<"other">>} \cup (IF AllowGap THEN {<<"gap">>, <<"back">>} ELSE {})
                \cup (IF Dups THEN {<<"leafD", k>> : k \in 1..MaxLeaves} ELSE {})
@@ -264,6 +267,7 @@ Concrete(shapes, nl, dc) ==   \* turn a sequence of shapes into events with fres
   ELSE LET s == Head(shapes)[1] IN
        IF s = "ger" THEN <<[t |-> "ger", x |-> nl]>> \o Concrete(Tail(shapes), nl + 1, dc)
        ELSE IF s = "gerrm" THEN <<[t |-> "gerrm", x |-> Head(shapes)[2]]>> \o Concrete(Tail(shapes), nl, dc)
+       ELSE IF s = "gerD" THEN <<[t |-> "ger", x |-> Head(shapes)[2]]>> \o Concrete(Tail(shapes), nl, dc)
        ELSE IF s = "leaf" THEN <<[t |-> "leaf", x |-> nl, dc |-> dc]>> \o Concrete(Tail(shapes), nl + 1, dc + 1)
        ELSE IF s = "leafR" THEN <<[t |-> "leaf", x |-> reuse[dc], dc |-> dc]>> \o Concrete(Tail(shapes), nl, dc + 1)
        ELSE IF s = "leafD" THEN <<[t |-> "leaf", x |-> Head(shapes)[2], dc |-> dc]>> \o Concrete(Tail(shapes), nl, dc + 1)
@@ -279,7 +283,8 @@ NLeaves(shapes) == Cardinality({i \in DOMAIN shapes : shapes[i][1] \in {"leaf", 
 
 (* shapes that cannot occur in the current state are left out before the sequences are enumerated *)
 ShapesNow == { s \in Shapes : /\ (s[1] = "leafR" => reuse # <<>>)
-                              /\ (s[1] \in {"leafD", "gerrm"} => s[2] < nextLeaf) }
+                              /\ (s[1] \in {"leafD", "gerrm"} => s[2] < nextLeaf)
+                              /\ (s[1] = "gerD" => \E r \in gers : r.x = s[2]) }
 ShapeSeqs == UNION {[1..n -> ShapesNow] : n \in 0..MaxEvents}
 
 DoProcess ==
